@@ -111,20 +111,24 @@ def run(ctx):
         oks = [(v, lits) for v, lits, _bb in value_table(b, R, 0) if v[0] == 'agg' and isinstance(v[1], tuple) and v[1][2] == 'Ok']
         errs = [(v, lits) for v, lits, _bb in value_table(b, R, 0) if v[0] == 'agg' and isinstance(v[1], tuple) and v[1][2] == 'Err']
         def tested(lits, op_):
+            # max_dim(self) is the one dimension of the flat shape (its body is an instance of its own below)
+            flat = lambda e: '(self as Flat).in_dim' if fmt(s(e)) == 'TensorShape::max_dim(self)' else fmt(e)
             for o, a, c in prune.cmp_facts(lits):
-                if o == op_ == 'Eq' and {fmt(a), fmt(c)} == {'(self as Flat).in_dim', 'dim'}:
+                a, c = ('raw', flat(a)), ('raw', flat(c))
+                if o == op_ == 'Eq' and {a[1], c[1]} == {'(self as Flat).in_dim', 'dim'}:
                     return True
-                if o == op_ == 'Ne' and {fmt(a), fmt(c)} == {'(self as Flat).in_dim', 'dim'}:
+                if o == op_ == 'Ne' and {a[1], c[1]} == {'(self as Flat).in_dim', 'dim'}:
                     return True
-                if o == op_ == 'Lt' and fmt(a) == 'idx' and fmt(c) == '(self as Flat).in_dim':
+                if o == op_ == 'Lt' and a[1] == 'idx' and c[1] == '(self as Flat).in_dim':
                     return True
-                if o == op_ == 'Ge' and fmt(a) == 'idx' and fmt(c) == '(self as Flat).in_dim':
+                if o == op_ == 'Ge' and a[1] == 'idx' and c[1] == '(self as Flat).in_dim':
                     return True
             return False
         neg = {'Eq': 'Ne', 'Lt': 'Ge'}[op]
         # Ok exactly under the test, Err exactly under its negation
         ok = bool(oks) and all(tested(l, op) for _, l in oks) and bool(errs) and all(tested(l, neg) for _, l in errs)
         (ctx.ok if ok else ctx.bad)('C18.R1', q, 'Ok iff ' + what if ok else '%s does not test %s' % (q, what), b.span)
+    prune.check_wrappers(ctx, 'C18.R1', {'TensorShape::max_dim': ('(self as Flat).in_dim', [], 'the dimension of the flat shape')})
     read_layers(ctx, F)
     extract_range(ctx, F)
     # every accepted architecture distills without a dimension panic: the distiller's running dimension follows the same table as the
